@@ -109,6 +109,14 @@ class Ctx:
         self.assumptions = []
         self.extra_cov = {}
         self.scratch = os.path.join(BUILD, 'run', '%s-%d' % (pid, os.getpid()))
+        # scratch of runs that ended with a violation is kept for inspection: drop what is older than three hours
+        try:
+            for d in os.listdir(os.path.join(BUILD, 'run')):
+                dp = os.path.join(BUILD, 'run', d)
+                if time.time() - os.path.getmtime(dp) > 3 * 3600:
+                    shutil.rmtree(dp, ignore_errors=True)
+        except OSError:
+            pass
         shutil.rmtree(self.scratch, ignore_errors=True)
         os.makedirs(self.scratch)
         os.makedirs(BIN, exist_ok=True)
